@@ -116,8 +116,25 @@ class Guard:
         return " ".join(f"{m[1]} {op} {r if not isinstance(r, tuple) else r[1]}" for m, op, r in self.comps)
 
 
+_EXPANDERS = {}
+
+
+def set_expander(f, inl):
+    _EXPANDERS["cur"] = inl
+
+
 def parse_cond(test, dnames):
     """-> (presence set, comps list, connective) or None"""
+    inl = _EXPANDERS.get("cur")
+    if inl is not None and getattr(test, "_parent", "x") != "x" or (inl is not None and hasattr(test, "lineno")):
+        try:
+            test = inl.expand(test, test)
+        except Exception:
+            pass
+    return _parse_cond(test, dnames)
+
+
+def _parse_cond(test, dnames):
     presence = set()
     comps = []
     conn = None
@@ -196,6 +213,40 @@ def raise_message(stmt):
     return None
 
 
+def helper_key_effects(ctx, g):
+    """(dict param, key param) pairs: the helper stores d[key] / d.setdefault(key)"""
+    out = set()
+    for node in ast.walk(g.node):
+        d = k = None
+        if isinstance(node, ast.Call) and isinstance(node.func, ast.Attribute) and node.func.attr == "setdefault" and isinstance(node.func.value, ast.Name) and node.args:
+            d, k = node.func.value.id, node.args[0]
+        if isinstance(node, ast.Assign):
+            for t in node.targets:
+                if isinstance(t, ast.Subscript) and isinstance(t.value, ast.Name):
+                    d, k = t.value.id, t.slice
+        if d is not None and d in g.params:
+            if isinstance(k, ast.Attribute) and k.attr == "value":
+                k = k.value
+            if isinstance(k, ast.Name) and k.id in g.params:
+                out.add((g.params.index(d), g.params.index(k.id)))
+    return out
+
+
+def call_completes(ctx, f, stmt, dnames):
+    """members completed by a helper call statement"""
+    out = set()
+    if isinstance(stmt, ast.Expr) and isinstance(stmt.value, ast.Call):
+        call = stmt.value
+        for t in ctx.res.call_targets(call, f):
+            if t.kind == "repo":
+                for di, ki in helper_key_effects(ctx, t.func):
+                    if di < len(call.args) and ki < len(call.args) and isinstance(call.args[di], ast.Name) and call.args[di].id in dnames:
+                        mm = member_of(call.args[ki])
+                        if mm:
+                            out.add(mm)
+    return out
+
+
 def collect_guards(f, dnames):
     guards = []
     unknown = []
@@ -232,9 +283,15 @@ def run(ctx, rep):
     fc = ctx.func(CST_FUNC)
     m = ctx.func(T.MINIMIZE)
     members = enum_tables(ctx)
+    from ..inline import expander
+    _EXPANDERS["ctx"] = ctx
+    set_expander(fo, expander(ctx, fo, stop=("options", "constants", "kwargs")))
     go, uo = collect_guards(fo, {"options"})
+    set_expander(fc, expander(ctx, fc, stop=("options", "constants", "kwargs")))
     gc, uc = collect_guards(fc, {"constants", "kwargs"})
+    set_expander(m, expander(ctx, m, stop=("options", "constants", "kwargs")))
     gm, um = collect_guards(m, {"options"})
+    _EXPANDERS.pop("cur", None)
     allg = [(fo, g) for g in go] + [(fc, g) for g in gc] + [(m, g) for g in gm]
     for f, s in [(fo, x) for x in uo] + [(fc, x) for x in uc]:
         raise AnalysisError(f"{f.local}:{s.lineno} guard condition `{norm(s.test)[:60]}` has a shape the extractor does not understand")
@@ -248,6 +305,7 @@ def run(ctx, rep):
     r195(ctx, rep, fo, fc)
     r196(ctx, rep)
     r197(ctx, rep, fo, m)
+    r198(ctx, rep, fo, fc)
 
 
 def enum_tables(ctx):
@@ -329,6 +387,8 @@ def r191(ctx, rep, allg, fo, fc, m):
     # single-member guards precede the coupling chains (value validated before
     # it is used to derive the partner)
     for f in (fo, fc):
+        from ..inline import expander as _exp2
+        set_expander(f, _exp2(ctx, f, stop=("options", "constants", "kwargs")))
         body = f.body()
         pos = {id(s): i for i, s in enumerate(body)}
         for a, op, b in PAIRS:
@@ -356,9 +416,12 @@ def r191(ctx, rep, allg, fo, fc, m):
 def _is_completed_before(f, g, mem):
     """A guard that reads D[member] unconditionally must be preceded by a
     setdefault / store of that member."""
+    ctx = _EXPANDERS.get("ctx")
     for s in f.body():
         if s is g.node:
             return False
+        if ctx is not None and mem in call_completes(ctx, f, s, {"options", "constants", "kwargs"}):
+            return True
         for node in ast.walk(s):
             if isinstance(node, ast.Call) and isinstance(node.func, ast.Attribute) and node.func.attr == "setdefault" and node.args and member_of(node.args[0]) == mem:
                 return True
@@ -444,11 +507,14 @@ def r193(ctx, rep, fo, fc, members):
     for f, en, dname in ((fo, "Options", "options"), (fc, "Constants", "constants")):
         cfg = ctx.cfg(f)
         dn = {dname, "kwargs"} if en == "Constants" else {dname}
+        from ..inline import expander as _exp
+        set_expander(f, _exp(ctx, f, stop=("options", "constants", "kwargs")))
 
         def keys_set(node):
             out = set()
             s = node.ast
             if node.kind == "stmt":
+                out |= call_completes(ctx, f, s, dn)
                 for sub in ast.walk(s):
                     if isinstance(sub, ast.Call) and isinstance(sub.func, ast.Attribute) and sub.func.attr == "setdefault" and isinstance(sub.func.value, ast.Name) and sub.func.value.id in dn and sub.args:
                         mm = member_of(sub.args[0])
@@ -493,6 +559,8 @@ def r193(ctx, rep, fo, fc, members):
     # derived partners
     for a, op, b in PAIRS:
         f = fo if a[0] == "Options" else fc
+        from ..inline import expander as _exp3
+        set_expander(f, _exp3(ctx, f, stop=("options", "constants", "kwargs")))
         dn = {"options"} if a[0] == "Options" else {"constants", "kwargs"}
         chain = None
         for s in f.body():
@@ -752,8 +820,10 @@ def _norm_default(s):
 def r195(ctx, rep, fo, fc):
     for f, en in ((fo, "Options"), (fc, "Constants")):
         found = False
+        from ..inline import expander as _exp5
+        inl5 = _exp5(ctx, f, stop=("options", "constants", "kwargs"))
         for node in ast.walk(f.node):
-            if isinstance(node, ast.If) and isinstance(node.test, ast.Compare) and len(node.test.ops) == 1 and isinstance(node.test.ops[0], ast.NotIn) and en in norm(node.test.comparators[0]) and "__members__" in norm(node.test.comparators[0]):
+            if isinstance(node, ast.If) and isinstance(node.test, ast.Compare) and len(node.test.ops) == 1 and isinstance(node.test.ops[0], ast.NotIn) and en in norm(inl5.expand(node.test.comparators[0], node)) and "__members__" in norm(inl5.expand(node.test.comparators[0], node)):
                 found = True
                 body_ok = True
                 for s in node.body:
@@ -842,3 +912,63 @@ def r197(ctx, rep, fo, m):
                             f"nb_points is validated against (n+1)(n+2)/2 and the n-dependent defaults are computed with `{norm(a1) if a1 is not None else '?'}` instead of the dimension of the reduced problem (pb.n): with fixed variables too many points are accepted and the defaults are wrong")
     if k < 1:
         raise AnalysisError("call of _set_default_options in minimize not found")
+
+
+def r198(ctx, rep, fo, fc):
+    """supplied values are preserved: a member is (re)assigned only as a type
+    coercion of itself, under a branch in which it is known to be absent, or
+    through setdefault"""
+    rep.rule("R19.8", "a supplied option/constant is never overwritten: stores are `D[K] = type(D[K])`, or lie in a branch where K is not supplied; defaults go through setdefault")
+    for f, dn in ((fo, {"options"}), (fc, {"constants", "kwargs"})):
+        cfg = ctx.cfg(f)
+        from ..inline import expander as _exp4
+        set_expander(f, _exp4(ctx, f, stop=("options", "constants", "kwargs")))
+
+        def present_transfer(node, state, label):
+            if node.kind == "test":
+                pc = parse_cond(node.ast.test, dn)
+                if pc and not pc[1] and not (isinstance(node.ast.test, ast.BoolOp) and isinstance(node.ast.test.op, ast.Or)):
+                    if label == "true":
+                        return state | frozenset(("in", m_) for m_ in pc[0])
+                    if label == "false" and len(pc[0]) == 1:
+                        return state | frozenset(("out", m_) for m_ in pc[0])
+            return state
+        states = cfg.solve_forward(frozenset(), present_transfer, lambda a, b: a & b)
+        n = 0
+        for node in cfg.nodes:
+            if node.kind != "stmt" or not isinstance(node.ast, ast.Assign):
+                continue
+            for t in node.ast.targets:
+                if isinstance(t, ast.Subscript) and isinstance(t.value, ast.Name) and t.value.id in dn:
+                    mem = member_of(t.slice)
+                    if mem is None:
+                        continue
+                    n += 1
+                    v = node.ast.value
+                    st = states.get(node.id, frozenset())
+                    desc = f"{f.local}:{node.line} {mem[1]} = {norm(v)[:50]}"
+                    coercion = isinstance(v, ast.Call) and isinstance(v.func, ast.Name) and v.func.id in ("float", "int", "bool") and len(v.args) == 1 and sub_member(v.args[0], dn) == mem
+                    absent = ("out", mem) in st
+                    # in the elif chains of the coupled pairs: `elif A in D:` after
+                    # `if A in D and B in D` means B is absent
+                    if not absent:
+                        for kind, what, ifn in _ctxs(node.ast, f.node):
+                            if kind == "if-false":
+                                pc = parse_cond(what, dn)
+                                if pc and not pc[1] and mem in pc[0]:
+                                    others = pc[0] - {mem}
+                                    if all(("in", o) in st for o in others):
+                                        absent = True
+                    if coercion or absent:
+                        rep.ok("R19.8", desc + (" (coercion)" if coercion else " (member not supplied here)"))
+                    else:
+                        rep.bad("R19.8", desc)
+                        rep.finding("R19.8", f, norm(node.ast)[:120], node.line,
+                                    f"`{mem[1]}` is overwritten although it may have been supplied by the caller: the run would use another value than the one asked for (e.g. a small maxfev silently raised)")
+        if n < 10:
+            raise AnalysisError(f"{f.local}: only {n} member stores found")
+
+
+def _ctxs(node, fnode):
+    from .c07 import enclosing_context
+    return enclosing_context(node, fnode)
